@@ -70,7 +70,8 @@ def handle (j : Json) : Json :=
     | .ok s => jl [Json.str "ok", jst "pilot" s]
   else if op == "batches" then
     let ts := (jarr j "tasks").map taskOf
-    let bs := (jarr j "batches").map (fun b => (asArr b).map updOf)
+    -- each batch enters through `_state_sub_cb` (what it hands to `_update_tasks`: Gen.stateSubPassesAll)
+    let bs := (jarr j "batches").map (fun b => subBatch RPVerif.Gen.stateSubPassesAll ((asArr b).map updOf))
     let r := runBatches (nOf "task") ts bs
     Json.mkObj [("tasks", jl (r.1.map jtask)),
                 ("cbs", jl (r.2.map (fun p => jl [jn p.1, jst "task" p.2])))]
